@@ -177,6 +177,65 @@ def find_rsa_top(name, bits, e, top):
     raise RuntimeError("harness: RSA search %s exhausted" % name)
 
 
+def _tlv_len(clen):
+    return 1 + (1 if clen < 128 else 2 if clen < 256 else 3) + clen
+
+
+def pkcs1_content_len(kd):
+    """length of the contents of the RSAPrivateKey SEQUENCE a DER encoder must produce (selection predicate only; the
+    driver measures the length octets of the real output)"""
+    p, q, d = kd["p"], kd["q"], kd["d"]
+    ints = (0, kd["n"], kd["e"], d, p, q, d % (p - 1), d % (q - 1), nt.inverse(q, p))
+    return sum(_tlv_len(v.bit_length() // 8 + 1) for v in ints)
+
+
+def find_rsa_seqlen(name, target, e=65537):
+    """smallest RSA key (bit sizes in increasing order, then successive q) whose RSAPrivateKey contents are exactly
+    `target` octets long: 127 | 128 and 255 | 256 straddle the short / 0x81 / 0x82 length forms of the outermost TLV"""
+    for bits in range(64, 640):
+        pb = bits // 2
+        p = nt.next_prime((0xC1 << (pb - 8)) | 0x4567)
+        while nt.gcd(e, p - 1) != 1:
+            p = nt.next_prime(p)
+        q = nt.next_prime((0xF3 << (bits - pb - 8)) | 0x321)
+        for _ in range(12):
+            if q != p and nt.gcd(e, q - 1) == 1:
+                kd = _rsa_from_primes(name, min(p, q), max(p, q), e)
+                if kd["n"].bit_length() == bits and pkcs1_content_len(kd) == target:
+                    return kd
+            q = nt.next_prime(q)
+    raise RuntimeError("harness: RSA search %s exhausted" % name)
+
+
+def find_dsa_domain(L, N, top=None):
+    """deterministic FFC domain: q = first N-bit prime after a fixed start, p = k*q + 1 the first prime of exactly L bits
+    (with the requested most significant octet), g = 2^((p-1)/q) mod p (the first h whose power is not 1)"""
+    q = nt.next_prime((0xD5 << (N - 8)) | 0x13579B)
+    nbytes = (L + 7) // 8
+    if top is None:
+        start = (1 << (L - 1)) + (1 << (L - 3))
+    else:
+        start = (top << (8 * (nbytes - 1))) + (1 << (8 * (nbytes - 1) - 1))
+    k = start // q
+    k += k & 1
+    for _ in range(40000):
+        p = k * q + 1
+        if p.bit_length() == L and (top is None or _top(p, nbytes) == top) and nt.is_prime(p):
+            h = 2
+            while pow(h, (p - 1) // q, p) == 1:
+                h += 1
+            return {"p": p, "q": q, "g": pow(h, (p - 1) // q, p)}
+        k += 2
+    raise RuntimeError("harness: DSA domain search (%d, %d) exhausted" % (L, N))
+
+
+# thorough tier only: the additional searched keys
+RSA_TOP_DEEP = ((2039, 0x7F), (2040, 0x80), (2040, 0xFF))        # n of 255 | 256 content octets (0x81 ff | 0x82 0100)
+RSA_BIG_DEEP = ((3072, 65537), (4096, 3))
+RSA_SEQLEN_DEEP = (127, 128, 255, 256)
+DSA_DOMAINS_DEEP = ((512, 160, None), (1015, 160, 0x7F), (1016, 160, 0x80), (2039, 224, 0x7F), (2040, 224, 0x80), (2048, 256, None))
+
+
 def _want_short_crt(kd, x):
     """one CRT value is at least one octet shorter than its modulus (leading zero in fixed width) and one
     other value needs a DER sign octet"""
@@ -229,7 +288,7 @@ def _seeds(n, tag):
         i += 1
 
 
-def ecc_keys(curve):
+def ecc_keys(curve, deep=False):
     c = EC.CURVES[curve]
     out = []
     if curve in WEIER:
@@ -261,6 +320,15 @@ def ecc_keys(curve):
         s[n - 1] = 0xBF if curve == "curve25519" else 0x7F
         out.append({"t": "ECC", "name": curve + "-unclamped", "curve": curve, "d": None, "seed": bytes(s)})
         out.append({"t": "ECC", "name": curve + "-seeded", "curve": curve, "d": None, "seed": seeded("c08/ecc/" + curve, n)})
+    if deep:
+        # the extreme scalars / seeds (thorough tier)
+        if curve in WEIER:
+            out.append({"t": "ECC", "name": curve + "-d1", "curve": curve, "d": 1, "seed": None})
+            out.append({"t": "ECC", "name": curve + "-dmax", "curve": curve, "d": c.order - 1, "seed": None})
+        else:
+            n = R.RAW_LEN[curve]
+            out.append({"t": "ECC", "name": curve + "-seed00", "curve": curve, "d": None, "seed": bytes(n)})
+            out.append({"t": "ECC", "name": curve + "-seedff", "curve": curve, "d": None, "seed": b"\xff" * n})
     for kd in out:
         kd["Q"] = list(R.ec_public(curve, kd["d"]) if kd["d"] is not None else R.rfc8410_public(curve, kd["seed"]))
     return out
@@ -283,8 +351,20 @@ def search_worker(job):
     acc = Acc()
     if job[0] == "rsa":
         found = [find_rsa_small("rsa512-e3-shortcrt", 512, 3, _want_short_crt)]
+    elif job[0] == "rsa-top":
+        found = [find_rsa_top("rsa%d-n%02x" % (job[1], job[2]), job[1], 65537, job[2])]
+    elif job[0] == "rsa-big":
+        found = [find_rsa_small("rsa%d-e%d" % (job[1], job[2]), job[1], job[2], lambda kd, x: True)]
+    elif job[0] == "rsa-seqlen":
+        found = [find_rsa_seqlen("rsa-pkcs1len%d" % t, t) for t in job[1]]
+    elif job[0] == "dsa-domain":
+        L, N, top = job[1:4]
+        name = "dsa%d-%d" % (L, N)
+        dom = find_dsa_domain(L, N, top)
+        x = seeded_int("c08/dsa/" + name, N + 64) % (dom["q"] - 1) + 1
+        found = [dict(dom, t="DSA", name=name, x=x, y=pow(dom["g"], x, dom["p"]))]
     else:
-        found = ecc_keys(job[1])
+        found = ecc_keys(job[1], deep=len(job) > 2 and job[2])
     for kd in found:
         acc.seen("found", json.dumps(jsonable(kd), sort_keys=True))
     return acc
@@ -300,7 +380,12 @@ def build_keys(acc, quick, pmap=None):
     def add(kd):
         keys[kd["name"]] = kd
 
-    jobs = [("rsa",)] + [("ecc", c) for c in CURVES]
+    jobs = [("rsa",)] + [("ecc", c, not quick) for c in CURVES]
+    if not quick:
+        # heaviest searches first
+        jobs = ([("dsa-domain",) + d for d in sorted(DSA_DOMAINS_DEEP, key=lambda d: -d[0])] +
+                [("rsa-big",) + b for b in sorted(RSA_BIG_DEEP, key=lambda b: -b[0])] +
+                [("rsa-top",) + t for t in RSA_TOP_DEEP] + [("rsa-seqlen", RSA_SEQLEN_DEEP)] + jobs)
     if pmap is not None:
         pmap(search_worker, jobs)
         src = acc
@@ -330,6 +415,15 @@ def build_keys(acc, quick, pmap=None):
         add(find_rsa_top("rsa%d-n%02x" % (bits, top), bits, 65537, top))
     for e in (0x8001, 0x800001, 0x80000001, 0x7FFF, 0xFF01, 0x81, 0x7F):
         add(find_rsa_top("rsa512-e%x" % e, 512, e, 0xC3))
+    if not quick:
+        # thorough: RSAPrivateKey contents of exactly 127 | 128 | 255 | 256 octets (length forms of the outermost TLV), a modulus
+        # of 255 | 256 content octets (0x81 ff | 0x82 01 00), and the sizes 3072 and 4096
+        for t in RSA_SEQLEN_DEEP:
+            add(found["rsa-pkcs1len%d" % t])
+        for bits, top in RSA_TOP_DEEP:
+            add(found["rsa%d-n%02x" % (bits, top)])
+        for bits, e in RSA_BIG_DEEP:
+            add(found["rsa%d-e%d" % (bits, e)])
     # ---- DSA -------------------------------------------------------------------
     doms = [(1024, 160), (2048, 224), (3072, 256)]
     for L, N in doms:
@@ -340,11 +434,18 @@ def build_keys(acc, quick, pmap=None):
     add(find_dsa_x(d1, "dsa1024-xsmall-y00", 2, 1, lambda x, y: _top(y, 128) == 0))
     # x just below q (top bit set: DER sign octet) whose y has the top bit set
     add(find_dsa_x(d1, "dsa1024-xtop-yhi", d1["q"] - 2, -1, lambda x, y: _top(y, 128) >= 0x80))
+    if not quick:
+        # thorough: searched domains; p of 127 | 128 and 255 | 256 content octets, a 512-bit p, and the FIPS 186-4 pair (2048, 256)
+        for L, N, top in DSA_DOMAINS_DEEP:
+            add(found["dsa%d-%d" % (L, N)])
     # ---- ECC -------------------------------------------------------------------
     for curve in CURVES:
         for sfx in {"w": ("-x00", "-y00", "-seeded"), "e": ("-y00-xodd", "-yhi-xeven", "-seeded"), "m": ("-u00", "-unclamped", "-seeded")}[
                 "w" if curve in WEIER else "e" if curve in EDW else "m"]:
             add(found[curve + sfx])
+        if not quick:
+            for sfx in (("-d1", "-dmax") if curve in WEIER else ("-seed00", "-seedff")):
+                add(found[curve + sfx])
     # ---- self-consistency of the inputs (reference side) -------------------------
     for kd in keys.values():
         if kd["t"] == "RSA":
